@@ -44,10 +44,25 @@ def _weight(kernel, k):
     return {"flat": Q(1), "harmonic": Q(1, k)}[kernel]
 
 
-def reference(forest, labels, vocab, radius, kernel, removed):
-    """dict (a_index, b_index) -> weight, for orientation 'after'"""
+def reference(forest, labels, vocab, radius, kernel, removed, mask=None):
+    """dict (a_index, b_index) -> weight, for orientation 'after'.
+    mask None: removed nodes are contracted away; 'mask': they stay in place under the mask label (last vocabulary
+    index); 'nullify': as 'mask' with every contribution from / to the mask dropped"""
     V = len(vocab)
     cells = {(a, b): Q(0) for a in range(V) for b in range(V)}
+    if mask is not None:
+        for parents, labs in zip(forest, labels):
+            n = len(parents)
+            idx = [(V - 1) if (removed is not None and bool(labs[i] == removed)) else vocab[labs[i]] for i in range(n)]
+            for v in range(n):
+                u, k = parents[v], 1
+                while u is not None and k <= radius:
+                    a, b = idx[u], idx[v]
+                    if not (mask == "nullify" and (bool(a == V - 1) or bool(b == V - 1))):
+                        for (x, y) in cells:
+                            cells[(x, y)] = cells[(x, y)] + ite(sand(a == x, b == y), _weight(kernel, k), Q(0))
+                    u, k = parents[u], k + 1
+        return cells
     for parents, labs in zip(forest, labels):
         n = len(parents)
         kept = [not (removed is not None and bool(labs[i] == removed)) for i in range(n)]
@@ -70,7 +85,7 @@ def reference(forest, labels, vocab, radius, kernel, removed):
     return cells
 
 
-def h_tree(ex, forest, radius, kernel, orientation, prune, with_transform=False):
+def h_tree(ex, forest, radius, kernel, orientation, prune, with_transform=False, mask=None, lil=False):
     tt = TT()
     strings = orientation == "directional"     # the vectorizer builds 'pre_' + token: labels must be strings there
     if strings:
@@ -84,24 +99,35 @@ def h_tree(ex, forest, radius, kernel, orientation, prune, with_transform=False)
         removed = SymStr([fresh_int("removed", 97, 122)]) if strings else fresh_int("removed", 0, None)
         register("removed", removed)
         kw["ignored_tokens"] = SymSet([removed])
+    mask_label = None
+    if mask is not None:
+        mask_label = SymStr([35]) if strings else -7          # '#' / -7: outside the label alphabet
+        kw["mask_string"] = mask_label
+        kw["nullify_mask"] = mask == "nullify"
     est = tt.LabelledTreeCooccurrenceVectorizer(window_radius=radius, kernel_function=kernel, window_orientation=orientation, **kw)
-    X = [(_adj(parents), list(labs)) for parents, labs in zip(forest, labels)]
+    mats = [_adj(parents).tolil() if lil else _adj(parents) for parents in forest]
+    adj_before = [[(r_, c_, v_) for r_, c_, v_ in m._triples()] for m in mats]
+    X = [(m, list(labs)) for m, labs in zip(mats, labels)]
     try:
         M = call(est.fit_transform, X, expected=(ValueError,))
     except ValueError:
         raise PathAbort()          # nothing left after pruning
     vocab = est.token_label_dictionary_
     V = len(vocab)
+    check("fit leaves the caller's adjacency matrices untouched",
+          all([(r_, c_, v_) for r_, c_, v_ in m._triples()] == b0 for m, b0 in zip(mats, adj_before)))
     if removed is not None:
         check("the removed label is not in the vocabulary", removed not in vocab)
     check("every kept label is in the vocabulary",
           all((l in vocab) or (removed is not None and bool(l == removed)) for labs in labels for l in labs))
+    if mask is not None:
+        check("the mask is exactly one extra vocabulary entry with the last index", (mask_label in vocab) and bool(vocab[mask_label] == V - 1))
     want_cols = 2 * V if orientation == "directional" else V
     ok = tuple(M.shape) == (V, want_cols)
     check("shape (n_labels, n_labels) -- twice as wide for 'directional'", ok, detail={"shape": list(M.shape), "V": V})
     if not ok:
         return None
-    ref = reference(forest, labels, vocab, radius, kernel, removed)
+    ref = reference(forest, labels, vocab, radius, kernel, removed, mask)
     D = M.toarray()
     conds = []
     for a in range(V):
@@ -120,6 +146,8 @@ def h_tree(ex, forest, radius, kernel, orientation, prune, with_transform=False)
     out = {"M": M, "vocab": [[k, v] for k, v in vocab.items()]}
     if with_transform:
         T = call(est.transform, X)
+        check("transform leaves the caller's adjacency matrices untouched",
+              all([(r_, c_, v_) for r_, c_, v_ in m._triples()] == b0 for m, b0 in zip(mats, adj_before)))
         check("transform(X) == fit_transform(X)", tuple(T.shape) == tuple(M.shape) and
               sand(*[x == y for x, y in zip(T.toarray()._flat(), M.toarray()._flat())]))
     return out
@@ -141,6 +169,24 @@ def h_path_vs_token(ex, n, radius, kernel):
     check("same matrix as TokenCooccurrenceVectorizer on the sequence", tuple(Mt.shape) == tuple(Mk.shape) and
           sand(*[x == y for x, y in zip(Mt.toarray()._flat(), Mk.toarray()._flat())]))
     return None
+
+
+def mask_grid(tier):
+    """masked / nullified / LIL-input variants (shared with C14 and C13)"""
+    if tier == "quick":
+        return [([[None, 0, 1]], 2, "flat", "after", True, True, "mask", False), ([[None, 0, 1]], 2, "harmonic", "directional", True, False, "nullify", False),
+                ([[None, 0, 0]], 2, "flat", "symmetric", True, False, "nullify", False), ([[None, 0, 1]], 2, "flat", "after", True, True, None, True),
+                ([[None, 0, 1, 1]], 2, "flat", "before", True, False, "nullify", False)]
+    out = []
+    for sh in SHAPES3 + SHAPES4[:3]:
+        for o in ("after", "before", "symmetric", "directional"):
+            for mk in ("mask", "nullify"):
+                if o == "directional" and len(sh) == 4:
+                    continue
+                out.append(([sh], 2, "harmonic", o, True, o == "after", mk, False))
+        out.append(([sh], 2, "flat", "after", True, True, None, True))
+        out.append(([sh], 3, "flat", "symmetric", True, True, "mask", True))
+    return out
 
 
 SHAPES3 = [[None, 0, 1], [None, 0, 0], [None, None, 1], [None, 0, None]]
@@ -170,10 +216,12 @@ def cases(tier):
         PV = [(n, r, k) for n in (2, 3, 4) for r in (1, 2, 3) for k in ("flat", "harmonic")]
     A = ["forest shapes are case parameters (parent arrays); labels unconstrained (integers; single lower-case letters for 'directional', which concatenates 'pre_' + label)",
          "adjacency entries are 1 (unweighted trees)", "Real arithmetic (the vectorizer accumulates in float32 / float64)"]
-    for forest, r, kern, o, pr, tr in G:
+    G = [g + (None, False) for g in G] + mask_grid(tier)
+    for forest, r, kern, o, pr, tr, mk, lil in G:
         nn = sum(len(f) for f in forest)
-        cs.append(Case("tree[%s,r=%d,%s,%s,prune=%d]" % ("|".join("".join("-" if p is None else str(p) for p in f) for f in forest), r, kern, o, int(pr)),
-                       h_tree, dict(forest=forest, radius=r, kernel=kern, orientation=o, prune=pr, with_transform=tr), replay="C15:replay_tree",
+        cs.append(Case("tree[%s,r=%d,%s,%s,prune=%d%s%s]" % ("|".join("".join("-" if p is None else str(p) for p in f) for f in forest), r, kern, o, int(pr),
+                                                            ",mask=%s" % mk if mk else "", ",lil" if lil else ""),
+                       h_tree, dict(forest=forest, radius=r, kernel=kern, orientation=o, prune=pr, with_transform=tr, mask=mk, lil=lil), replay="C15:replay_tree",
                        witness="C15:witness_tree", functions=FUNCS, assumptions=A, max_witness=6, shards=8 if nn >= 4 else 1, shard_depth=8,
                        bounds={"forest (parent arrays)": forest, "window_radius": r, "kernel": kern, "orientation": o,
                                "pruning": "one symbolic removed label" if pr else "none"}))
